@@ -3789,8 +3789,10 @@ impl GlobalInferenceCtx<'_> {
                         eval_comptime: self.eval_comptime,
                     };
 
-                    // TODO: handle the error properly, and test the error case
-                    dummy_env.const_ty(param.ty).unwrap()
+                    // the type may be a global that hasn't been inferred yet (`comptime v: MyInt`
+                    // with `MyInt :: i64;` in the other file): this call has to wait for it,
+                    // like it does when both are in the same file
+                    dummy_env.const_ty(param.ty)?
                 } else {
                     self.const_ty(param.ty)?
                 };
